@@ -121,7 +121,7 @@ def asgRecv (a b : Ty) : Bool :=
   | .scalar =>
       (match b with
        | .scalar | .scalarData => true
-       | b' => asg .str b' || asg .numeric b' || asg (.bool none) b' || asg (.regexp "") b')
+       | b' => asg .str b' || asg .numeric b' || asg (.bool none) b' || asg (.regexp "") b' || asg (.tspan Rng.all) b')
   | .scalarData =>
       (match b with
        | .scalarData => true
